@@ -59,6 +59,8 @@ fn base_case(msgs: Vec<(Value, u64)>, max_msg_len: usize, stream_len: usize) -> 
     IoCase {
         msgs,
         pre: vec![],
+        how: vec![],
+        raw: vec![],
         max_msg_len,
         wchunks: vec![],
         rchunks: vec![],
@@ -147,6 +149,11 @@ fn build(ctx: &Ctx, vt: &VT, idx: u64, rng: &mut Rng) -> Built {
                 }
             })
             .collect();
+    }
+    if !c.pre.is_empty() && prng.chance(1, 2) {
+        // other ways of using the guards: an initialised guard dropped unsent before the message, raw bytes + assume_init
+        c.how = c.pre.iter().map(|p| if p.is_some() { prng.below(2) as u8 } else if prng.chance(1, 2) { 2 } else { 0 }).collect();
+        c.raw = images.clone();
     }
     Built { case: c, images, desc: String::new() }
 }
@@ -377,7 +384,7 @@ pub fn run(ctx: &Ctx, rep: &mut Report) {
             let largest = images.iter().map(|i| i.len()).max().unwrap_or(0).max(d.min_size());
             let mut c = base_case(msgs, largest * 2, n);
             let kind = if kind_i == 7 { FaultKind::Zero } else { FaultKind::Err(IO_KINDS[kind_i]) };
-            let f = Fault { at: pos, kind, times: if persistent { usize::MAX } else { 1 } };
+            let f = Fault { at: pos, kind, times: if persistent { usize::MAX } else { 1 }, then: None };
             c.wchunks = gen_chunks(&mut crng, d.align(), largest);
             c.rchunks = gen_chunks(&mut crng, d.align(), largest);
             c.capacity = usize::MAX / 4;
@@ -428,6 +435,7 @@ pub fn run(ctx: &Ctx, rep: &mut Report) {
 
         // property specific shaping of the case
         let mut fault_desc = "none";
+        let mut multi_fault = false;
         if let Some(fd) = enum_fault_desc {
             fault_desc = fd;
         } else if prop == "C09" {
@@ -444,7 +452,24 @@ pub fn run(ctx: &Ctx, rep: &mut Report) {
             };
             let kind = if rng.chance(1, 4) { FaultKind::Zero } else { FaultKind::Err(*rng.pick(IO_KINDS)) };
             let times = *rng.pick(&[1usize, 1, 2, usize::MAX]);
-            let f = Fault { at: pos, kind, times };
+            let mut f = Fault { at: pos, kind, times, then: None };
+            let mut extra_faults = 0;
+            if times != usize::MAX && !matches!(kind, FaultKind::Zero) && rng.chance(1, 3) {
+                // a script with a second (and third) transient fault further down the stream
+                let mut at = pos;
+                let mut chain: Option<Box<Fault>> = None;
+                let k = rng.range(1, 2);
+                let mut specs = Vec::new();
+                for _ in 0..k {
+                    at = rng.range(at, stream_len);
+                    specs.push((at, FaultKind::Err(*rng.pick(IO_KINDS)), rng.range(1, 2)));
+                }
+                for (at, kind, times) in specs.into_iter().rev() {
+                    extra_faults += times;
+                    chain = Some(Box::new(Fault { at, kind, times, then: chain }));
+                }
+                f.then = chain;
+            }
             if rng.chance(1, 2) {
                 b.case.wfault = Some(f);
                 b.case.send_after_error = times != usize::MAX && rng.chance(1, 2);
@@ -453,7 +478,10 @@ pub fn run(ctx: &Ctx, rep: &mut Report) {
                 b.case.rfault = Some(f);
                 // the receiver may stop early: the sender must never block on a full pipe
                 b.case.capacity = usize::MAX / 4;
-                b.case.recv_retries = if times == usize::MAX { 2 } else { 4 };
+                b.case.recv_retries = if times == usize::MAX { 2 } else { 4 + extra_faults };
+                if extra_faults > 0 {
+                    multi_fault = true;
+                }
                 fault_desc = if matches!(kind, FaultKind::Zero) { "read-eof" } else if times == usize::MAX { "read-persistent" } else { "read-transient" };
             }
         }
@@ -634,6 +662,10 @@ pub fn run(ctx: &Ctx, rep: &mut Report) {
             if edited > 0 && mode != "threaded" {
                 rep.add("messages-replaced-through-send-guard", edited as u64);
             }
+            if !case.how.is_empty() && mode != "threaded" {
+                rep.add("guards-dropped-unsent", case.how.iter().filter(|h| **h == 1).count() as u64);
+                rep.add("messages-written-as-raw-bytes", case.how.iter().filter(|h| **h == 2).count() as u64);
+            }
             if case.monitored && mode != "threaded" {
                 if t.mon.misaligned_windows > 0 {
                     rep.violation(format!("{}|window-misaligned|{}", prop, mode), format!("{}: the occupied window started at a misaligned address {} times", vt.name, t.mon.misaligned_windows), cj(&t));
@@ -654,6 +686,10 @@ pub fn run(ctx: &Ctx, rep: &mut Report) {
         // ---- C09
         if prop == "C09" {
             rep.count(&format!("fault:{}", fault_desc));
+            if multi_fault {
+                rep.count("fault-script:several-transient-read-faults");
+                rep.max("max:faults-injected-in-one-case", t.rlog.faults_injected as u64);
+            }
             if t.wlog.faults_injected + t.rlog.faults_injected == 0 {
                 rep.count("fault-not-reached");
             }
